@@ -96,6 +96,24 @@ def cbincount(htmc_src):
         ("bump", "if (radbin >=0 && radbin < nbin) { npy_int64 *cptr = (npy_int64 *) PyArray_GETPTR1((PyArrayObject *) counts_array, radbin); *cptr += 1;"),
     ]:
         _need(body, {what: shape}, "cbincount/" + what)
+    # the ORDER of the statements that thread the (scale, logscale) state through the loop (LoopModel.v, C13_cap_loop):
+    # once before the loop for a size-1 array; inside the loop: per-point scale, maxangle, search cap, position, cover, pairs
+    order = ["if (nscale==1) {", "for (npy_intp i1=0; i1<n1; i1++) {", "if (nscale > 1) {", "double maxangle = rmax/scale;",
+             "d = cos(", "double ra1 = *(double *) PyArray_GETPTR1((PyArrayObject *) ra1_array, i1);",
+             "domain.setRaDecD(ra1,dec1,d);", "for (npy_intp j=0; j<nfound; j++) {", "double dis = gcirc(",
+             "if (dis <= maxangle) {", "double logr = logscale + log10(dis);"]
+    pos = []
+    for frag in order:
+        k = body.find(squeeze(frag))
+        if k < 0:
+            raise TranslateError("cbincount/state threading: statement %r not found" % frag)
+        pos.append(k)
+    if pos != sorted(pos):
+        bad = next(order[i + 1] for i in range(len(pos) - 1) if pos[i] > pos[i + 1])
+        raise TranslateError("cbincount/state threading: %r comes too early; the loop no longer has the order LoopModel.v transcribes "
+                             "(scale of point i -> maxangle -> search cap -> cover -> pairs)" % bad)
+    if body.count(squeeze("d = cos(")) != (2 if "BINCOUNT_COVER_PAD_DEGREES" not in body else 1):
+        raise TranslateError("cbincount/state threading: the search cap is computed in an unexpected number of places")
     out["index"] = _need(body, {
         "floor": "int radbin = (int) floor( (logr-logrmin)/log_binsize );",
         "cast": "int radbin = (int) ( (logr-logrmin)/log_binsize );",
@@ -237,6 +255,8 @@ def python_wrappers(htm_py_src):
             body = [b.replace(k, ".astype('%s')" % dt) for b in body]
         # the size test of the second list compares ra2 with itself in the as-found code (a typo that only concerns
         # invalid inputs); both spellings are accepted
+        if name == "bincount":
+            typo = any("ra2.size != ra2.size" in b for b in body)
         body = [b.replace("ra2.size != ra2.size", "ra2.size != <RA2-OR-DEC2>.size").replace("ra2.size != dec2.size", "ra2.size != <RA2-OR-DEC2>.size")
                 for b in body]
         if args != wargs:
@@ -246,7 +266,7 @@ def python_wrappers(htm_py_src):
             raise TranslateError("htm.py: HTM.%s changed at statement %d: %r" % (name, k, body[k] if k < len(body) else "<missing>"))
     if nravel not in (0, 8):
         raise TranslateError("htm.py: %d of the 8 array conversions of lookup_id/bincount are flattened (expected none or all)" % nravel)
-    return {"ravel": nravel == 8}
+    return {"ravel": nravel == 8, "ra2_typo": typo}
 
 
 def vector_ops(vec_src, edge_src, index_src, iface_h, iface_cpp, htmc_src, general_src):
@@ -318,3 +338,30 @@ def translate(impl_root):
     out.update(vector_ops(src("SpatialVector.cpp"), src("SpatialEdge.cpp"), src("SpatialIndex.cpp"), src("SpatialInterface.h"),
                           src("SpatialInterface.cpp"), rd("esutil", "htm", "htmc.cc"), src("SpatialGeneral.h")))
     return out
+
+
+def translate_partial(impl_root):
+    """like translate, but section by section: returns (what could be read, list of error texts).  The harness keeps using the
+    values of the sections that still translate, so that the dynamic comparison is not disturbed by an unrelated fallback."""
+    def rd(*p):
+        path = os.path.join(impl_root, *p)
+        try:
+            return open(path).read()
+        except OSError as e:
+            raise TranslateError("cannot read %s: %s" % (path, e))
+    src = lambda f: rd("esutil", "htm", "htm_src", f)
+    out, errors = {}, []
+    sections = [
+        lambda: cbincount(rd("esutil", "htm", "htmc.cc")),
+        lambda: (log_bins(rd("esutil", "htm", "htm.py")), {})[1],
+        lambda: python_wrappers(rd("esutil", "htm", "htm.py")),
+        lambda: id_by_point(src("SpatialIndex.cpp"), src("SpatialGeneral.h")),
+        lambda: vector_ops(src("SpatialVector.cpp"), src("SpatialEdge.cpp"), src("SpatialIndex.cpp"), src("SpatialInterface.h"),
+                           src("SpatialInterface.cpp"), rd("esutil", "htm", "htmc.cc"), src("SpatialGeneral.h")),
+    ]
+    for sec in sections:
+        try:
+            out.update(sec())
+        except TranslateError as e:
+            errors.append(str(e))
+    return out, errors
